@@ -9,6 +9,6 @@ cd /verif
 for c in "$@"; do
   out=$(./check "$c" --tier quick --src "$d/src" 2>&1); rc=$?
   echo "== $c exit=$rc"
-  echo "$out" | grep -E "UNDISCHARGED|VIOLATION|ANALYSIS-ERROR|\.\.\. " | cut -c1-420 | head -${MAXL:-6}
+  echo "$out" | grep -E "UNDISCHARGED|UNDECIDED|VIOLATION|ANALYSIS-ERROR|\.\.\. " | cut -c1-420 | head -${MAXL:-6}
 done
 rm -rf "$d"
